@@ -1,7 +1,7 @@
 #!/bin/bash
 # usage: seed_detect.sh CNN [check ids...]  -> applies the seeded patch to /repo, runs the quick check(s), undoes it
 ID=$1; shift; CHECKS=${@:-$ID}
-D=/tmp/seed_$ID; [ -d /verif/seeded/$ID ] && P=/verif/seeded/$ID/patch.diff || P=$D/out/patch.diff
+D=/tmp/${SEEDP:-seed}_$ID; if [ -n "$SEEDP" ] || [ ! -d /verif/seeded/$ID ]; then P=$D/out/patch.diff; else P=/verif/seeded/$ID/patch.diff; fi
 cd /verif
 git -C /repo checkout -q -- . 
 git -C /repo apply $P || { echo "cannot apply"; exit 2; }
